@@ -44,8 +44,15 @@ func run(r *core.Run) {
 	if schedShard && (only == "" || only == "replhist") {
 		replHistories(r)
 	}
+	if schedShard && (only == "" || only == "cliraw") {
+		cliRawInterrupts(r)
+	}
 	if seqShard && (only == "" || only == "seq") {
 		seqBFS(r)
+	}
+	// real signals: one process only (the last shard), nothing else of this check reacts to SIGINT
+	if (r.ShardN <= 1 || r.ShardIdx == r.ShardN-1) && (only == "" || only == "signal") {
+		signalBridge(r)
 	}
 	if seqShard && (only == "" || only == "misc") {
 		ctxWriter(r)
@@ -86,6 +93,19 @@ func replay(r *core.Run, raw json.RawMessage) bool {
 		bad := judgeRepl(c, o)
 		fmt.Printf("  earlier lines %q\n", c.Prefix)
 		fmt.Printf("  REPL depth %d line %q interrupt at write %d (settle %d ms): %+v\n  verdict: %q\n", c.Depth, c.Prog, c.FireAt, c.WaitMs, o, bad)
+		return bad != ""
+	case "signal":
+		var c SignalCase
+		_ = json.Unmarshal(raw, &c)
+		bad, inc := runSignalScenario(c.Scenario)
+		fmt.Printf("  scenario %s: verdict %q inconclusive %q\n", c.Scenario, bad, inc)
+		return bad != ""
+	case "cli-raw":
+		var c CLICase
+		_ = json.Unmarshal(raw, &c)
+		o := runCLI(c)
+		bad := judgeCLI(c, o)
+		fmt.Printf("  fq %q (stdout not a terminal), interrupt at write %d (settle %d ms): %+v\n  verdict: %q\n", c.Args, c.FireAt, c.WaitMs, o, bad)
 		return bad != ""
 	default:
 		sub := core.NewScratchRun(r)
